@@ -1542,6 +1542,7 @@ func (eval Evaluator) RotateHoistedLazyNew(level int, rotations []int, op0 *rlwe
 	for _, i := range rotations {
 		if i != 0 {
 			opOut[i] = rlwe.NewElementExtended(eval.parameters, 1, level, eval.parameters.MaxLevelP())
+			opOut[i].IsNTT = op0.IsNTT // the result is computed (and returned) in the domain of the input
 			if err = eval.AutomorphismHoistedLazy(level, op0, c2DecompQP, eval.parameters.GaloisElement(i), opOut[i]); err != nil {
 				return
 			}
